@@ -84,7 +84,7 @@ func init() {
 			for i := 0; i < perDoc && events < a.n; i++ {
 				var e *Expr
 				switch k := rng.Intn(10); {
-				case k < 6 || a.fam == "paths":
+				case k < 6 || a.fam == "paths" || a.fam == "preds":
 					e = g.NodeSet(2, true)
 				case k < 7:
 					e = g.Num(2)
